@@ -26,6 +26,9 @@ func minMatchConst(p *Program) int64 {
 // runAsm runs the assembly prover for the given cases and turns its obligations
 // into check obligations whose rule id is chosen by kind.
 func runAsm(c *Check, p *Program, cases []asmCase, ruleOf map[string]string) {
+	if archSubst != "" {
+		return // decode_amd64.s belongs to the amd64 configuration only
+	}
 	path := filepath.Join(repoDir, "internal/lz4block/decode_amd64.s")
 	mm := minMatchConst(p)
 	if mm < 0 {
